@@ -15,6 +15,7 @@
 EXTENDS MFSLocks, Json, Integers
 
 Trace == ndJsonDeserialize("trace.ndjson")
+CONSTANT CheckAcked   \* FALSE: the acknowledged-write oracle is evaluated by the driver on the raw events
 VARIABLES l, req, dev, rdev   \* dev: deviations used so far (reported); rdev: used in the current run
 tvars == <<vars, l, req, dev, rdev>>
 ASSUME TLCSet(1, 0)
@@ -106,7 +107,8 @@ TFinal == /\ IsEvent("final")
           /\ ~Has(Ev, "rooterr")
           /\ ToSet(Ev.f1) = node["f1"] /\ ToSet(Ev.f2) = node["f2"]
           /\ ToSet(Ev.root_f1) = node["f1"] /\ ToSet(Ev.root_f2) = node["f2"]
-          /\ \/ "Dev_C20_SetAttrLostUpdate" \in rdev     \* the as-built stale assignment ran in this run
+          /\ \/ ~CheckAcked
+             \/ "Dev_C20_SetAttrLostUpdate" \in rdev     \* the as-built stale assignment ran in this run
              \/ acked["f1"] \subseteq ToSet(Ev.root_f1) /\ acked["f2"] \subseteq ToSet(Ev.root_f2)
           /\ UNCHANGED <<vars, req, dev, rdev>>
 
@@ -123,7 +125,7 @@ THang == /\ IsEvent("hang")
 TNext == TReset \/ TOp \/ TPreReq \/ TPreRel \/ TPostLock \/ TPostAcc \/ TRet \/ TFinal \/ THang
 TSpec == TInit /\ [][TNext]_tvars
 
-TAcked == "Dev_C20_SetAttrLostUpdate" \in rdev \/ AckedWriteVisible
+TAcked == ~CheckAcked \/ "Dev_C20_SetAttrLostUpdate" \in rdev \/ AckedWriteVisible
 DevReport == l <= Len(Trace) \/ \A d \in dev : PrintT(<<"DEV_USED", d>>)
 TraceConstraint == TLCSet(1, IF l - 1 > TLCGet(1) THEN l - 1 ELSE TLCGet(1))
 TracePost == PrintT(<<"TRACE_HWM", TLCGet(1)>>)
